@@ -30,18 +30,22 @@ from lib import import_impl, outcome, is_error, Sym
 import fam_c02
 
 META = dict(
-    technique='Coq theorems about executable family models (T1 characterisation, T2 existence/bijection, T3 Tseitin '
-              'odd-component) + extracted-model differential check (numvar, canonical clause set, OPB list)',
+    technique='Coq theorems about executable family models (T1 characterisation, T2 existence/bijection, T3 Tseitin and '
+              'even-colouring criteria in both directions, Tseitin model count) + extracted-model differential check '
+              '(numvar, canonical clause set, OPB list)',
     category='proof',
     text='For each of tseitin, kcolor, ec, domset (both encodings), tiling, iso/automorphism, subgraph, kclique, kcliquebin '
          'and ramlb a Gallina function produces the list of builder calls the Python generator makes; machine-checked theorems '
          'state for every graph, parameter and assignment that the formula holds exactly when the assignment encodes the '
          'documented witness, hence satisfiable iff the witness exists, with a models<->witnesses bijection for iso and '
-         'functional kcolor and the double-counting unsatisfiability of Tseitin formulas with an odd component. The models are '
+         'functional kcolor; Tseitin formulas are satisfiable iff every connected component has even total charge, and then '
+         'have exactly 2^(|E|-|V|+components) models (models <-> values on the edges outside a spanning forest); even '
+         'colouring formulas are satisfiable iff every component has an even number of edges. The models are '
          'tied to the code by exact comparison of variable count, clause set and OPB constraints on all graphs up to 4 (5) '
          'vertices times parameters and on seeded random graphs up to 40 vertices.',
-    note='Trusted: Coq kernel, extraction, OCaml driver, this harness and its oracles. The Tseitin converse and the model '
-         'count 2^(|E|-|V|+c) are NOT proved (kept as *_statement); they are tested by enumeration on small graphs. '
+    note='Trusted: Coq kernel, extraction, OCaml driver, this harness and its oracles. The Tseitin converse, the model '
+         'count 2^(|E|-|V|+c) and the even-colouring converse are theorems (the *_statement definitions are proved as '
+         'written); they are additionally tested by enumeration on small graphs. '
          'RamseyWitnessFormula ignores s and GraphIsomorphism ignores nontrivial=True on the unchanged tree (known findings).',
     design_ref='5/C02',
 )
